@@ -57,6 +57,7 @@ CTX = {}          # filled before the worker pool forks
 QUICK_BUDGET = 33
 THOROUGH_BUDGET = 12.5 * 60
 ARG_CORE_Q, ARG_CORE_T = 30, 24
+TEXT_KEY_CAP = 12
 # extra link modes of the object seed (thorough)
 OBJECT_MODES = (("-pie", "--no-gc-sections"), ("-r",))
 BAD = ("panic", "signal", "hang", "silent-error", "badexit")
@@ -620,7 +621,22 @@ def main():
                 if not ok:
                     unconfirmed[key] = resolve(book.findings[key][0][1])["desc"][:200]
 
-        allkeys = sorted(book.findings)
+        # Text crash / hang classes are keyed by token string: keep the minimal ones only, and at
+        # most TEXT_KEY_CAP per (class, grammar, variant), shortest first.
+        allkeys, per_prefix, over_cap = [], {}, {}
+        for key in sorted(book.findings, key=lambda k: (book.findings[k][0][0], k)):
+            item = book.findings[key][0][1]
+            if item[0] == "txt" and key.startswith(("signal", "hang")):
+                if contains_sub(tuple(item[2]), set(book.bad_text.get((item[1], item[3]), {}))):
+                    folded[key] = "contains a shorter failing text"
+                    continue
+                prefix = key.rsplit(":", 1)[0]
+                per_prefix[prefix] = per_prefix.get(prefix, 0) + 1
+                if per_prefix[prefix] > TEXT_KEY_CAP:
+                    over_cap[prefix] = over_cap.get(prefix, 0) + 1
+                    continue
+            allkeys.append(key)
+        allkeys.sort()
         confirm_round([k for k in allkeys if ":pair:" not in k])
         confirm_round([k for k in allkeys if ":pair:" in k])
         kill_servers()
@@ -664,7 +680,8 @@ def main():
         "confirmed_violation_keys": sorted(confirmed_sites),
         "unconfirmed_server_verdicts": unconfirmed,
         "slow_or_hang_not_judged_huge_declared_value": deferred,
-        "pair_classes_folded_into_single_field_keys": folded,
+        "classes_folded_into_another_key": folded,
+        "text_classes_over_confirmation_cap": over_cap,
         "confirmation_subprocesses": nproc[0],
         "server_clean_exits": book.exit0,
         "enumeration_wall_s": round(t_enum, 1),
